@@ -15,7 +15,8 @@ THEOREMS = ["C10_unique_data_spec", "C10_seq_bytes_unchanged", "C10_relocation_s
             "C10_unique_string_terminates", "C10_identifiers_unique_valid", "C10_linker_idempotent_query",
             "C10_pcm_region_sound_partial", "C10_offset_window_counterexample",
             "C10_pcm_histories_partial", "C10_pcm_later_songs_keep_partial", "C10_reader_agreement", "C10_stored_once", "C10_song_resolves_partial", "C10_group_key_agrees",
-            "C10_resolver_songs_partial", "C10_full_bank_partial", "C10_full_bank_fresh_partial"]
+            "C10_resolver_songs_partial", "C10_full_bank_partial", "C10_full_bank_fresh_partial",
+            "C10_full_headers_partial", "C10_full_partial"]
 LEVEL = "proof"
 STREAM = "link.out"
 CHUNK = 20
@@ -39,26 +40,24 @@ ASSUMPTIONS = ["linked banks below 2 GiB (int offset in get_seq_data), MDS files
                "partial: PCM headers with a non-zero start offset are excluded from the PCM theorems (known finding D11)"]
 TRUSTED = ["Spec/Link.lean (MDS reader, bank resolver, group symbol and order, header reader)"]
 TECHNIQUE = "Lean 4 proof (invariant over linker histories by induction on the operation list, refinement of the chunk walk to the spec reader, layout lemmas, fuel bound for unique_string) + differential correspondence model<->mdsdrv.cpp + spec resolver on the real output"
-LEVEL_TEXT = ("Machine-checked theorems over a Lean model of MDSDRV_Linker: add_unique_data stores identical data once and never merges "
-              "different data, earlier indices stay; in the linked bank every song is found through the table at an even offset with its "
-              "bytes unchanged outside its pointer slots, every slot holds (flag bit kept) the offset of a bank entry byte-identical to what "
-              "the song carried; offsets of non-empty entries are equal iff the bytes are equal, PCM headers are equal iff address, pitch "
-              "code and size are; songs are numbered from 1 in group-key order then input order and header counts match; unique_string "
-              "terminates and the generated identifiers are pairwise distinct valid symbols with MIN/MAX bracketing each group; "
-              "get_seq_data is a function of the songs added (queries leave no trace). Over ALL histories of add_song calls on a fresh "
-              "linker (induction over the operation list on top of C14's allocator invariant): every patch entry of every song still "
-              "serves what its file carried for that slot - data entries at the recorded index, PCM headers addressing exactly the "
-              "sample's bytes inside the PCM bank returned, with the rate's pitch code, never crossing a bank boundary; later songs never "
-              "change what earlier entries resolve to. The linker's chunk walk and the spec's own MDS reader are proved to agree on every "
-              "file the spec reader accepts, and add_song is proved to be the fold over exactly those entries; and every song of every such "
-              "history whose file the spec reader accepts passes the spec's executable per-song resolver (songOk: table entry, body outside "
-              "the slots, every slot's pointer word, flag, data entry or PCM header and PCM region). The history theorems are partial: "
-              "their extra hypothesis is PCM start offset 0 (known finding D11); the resolver theorem also assumes a bank below 4 GiB.")
+LEVEL_TEXT = ("Machine-checked theorems over a Lean model of MDSDRV_Linker, for all inputs. The main one (C10_full_partial): for EVERY list "
+              "of MDS files the spec's own reader accepts that MDSDRV_Linker links without error, the spec's executable resolver - the "
+              "same LinkSpec.resolveBank / resolveHeaders the judge runs on the real output - accepts the linked sequence bank, the PCM "
+              "bank and both generated headers: bank header fields; every song through the table in group then input order with its "
+              "bytes unchanged outside the pointer slots; every slot's pointer word with its flag bit addressing a byte-identical data "
+              "entry or a PCM header with the rate's pitch code and the sample's size whose address selects exactly the sample's bytes "
+              "in the PCM bank; non-overlapping song spans; identical data stored once, different data never merged; one valid unique "
+              "identifier per song with MIN/MAX bracketing each group. Extra hypotheses: PCM start offsets 0 (known finding D11), bank "
+              "below 4 GiB, fewer than 65536 songs (32-bit offsets / 16-bit counts of the format). Supporting theorems, each for all "
+              "histories: the PCM/data invariant over arbitrary add_song histories on top of C14's allocator invariant (later songs never "
+              "disturb earlier ones, bank rule), agreement of the linker's chunk walk with the spec reader, add_song = fold over exactly "
+              "the entries read, group key = spec group symbol and map order = spec order, layout / relocation / stored-once / numbering "
+              "/ identifier theorems, termination of unique_string, query independence.")
 LEVEL_NOTE = ("Trusted: Lean kernel; Model/Linker.lean (+ Model/Riff, Model/Wave), tied to mdsdrv.cpp by differential testing only; "
-              "Spec/Link.lean; the converter is not modelled here (its real output is the input). Not proved, decided per case by the "
-              "oracle: what LinkSpec.resolveBank / resolveHeaders check on top of the per-song resolver - that song number i is the i-th "
-              "song in the spec's group order, the span and area checks, the list-level stored-once test, and the header text parser; "
-              "every ingredient is a theorem, this final composition is not (see C10_full_statement in Properties/C10.lean).")
+              "Spec/Link.lean (the resolver and reader the theorem is stated against); the converter is not modelled here (its real "
+              "output is the input). Decided per case by the oracle and not by proof: files the strict spec reader rejects but the "
+              "linker accepts are covered by the history theorems (C10_pcm_histories_partial) but not by the resolver theorem; PCM "
+              "headers with a start offset (D11). See Properties/C10.lean for the exact hypotheses of each theorem.")
 
 EXPECT = {}   # stage-2 request -> 'direct=' answer of stage 1
 
